@@ -1083,3 +1083,17 @@ def classify(suite, d):
     if not ref or not est:
         return None
     return op, {"ref": ref, "est": est, "frame_size": i["frame_size"], "beta": i.get("beta", "1")}
+
+
+# ----------------------------------------------------------------------------------------
+# more oracle streams (harness/props/c16_seq.py): every labelling entry of evaluate(); SEQUENCES of calls in one process
+# on annotations whose marginals collide under lossy summaries; a large-scale stream (50k-200k frames)
+from props import c16_seq as _SEQ  # noqa: E402
+CHECKERS.update(_SEQ.CHECKERS)
+ORACLES.update(_SEQ.ORACLES)
+RULE += ("; oracle streams added: every labelling entry of evaluate(); sequences of 2-4 plain calls in one process "
+         "(module state reset first) on annotations with equal frame counts whose marginals collide under lossy "
+         "summaries (same set of cluster sizes / same multiset / same number of clusters / same n / same intervals / "
+         "same labels / other frame grid), each call against its textbook value; three large-scale inputs per quick "
+         "run (50k-200k frames: ari, nce, vmeasure, mutual_information through the public functions, "
+         "_contingency_matrix / _adjusted_rand_index on index vectors) against exact integer arithmetic on run lengths")
